@@ -603,7 +603,14 @@ class CPreProcessor:
             else:
                 return t.val
 
-        string_value = '"{}"'.format(" ".join(map(escape, snippet)))
+        # Keep the spacing of the argument: a single space where there
+        # was whitespace between two tokens, nothing otherwise.
+        parts = []
+        for t in snippet:
+            if parts and (t.space or t.first):
+                parts.append(" ")
+            parts.append(escape(t))
+        string_value = '"{}"'.format("".join(parts))
         return CToken("STRING", string_value, hash_token.space, False, loc)
 
     def concat(self, lhs, rhs):
